@@ -4,7 +4,7 @@
 WT="$1"; OUT="$2"; FILT="$3"
 export CARGO_TARGET_DIR="$WT/target" CARGO_NET_OFFLINE=true
 cd "$WT" || exit 2
-git checkout -q -- . ; git clean -qfd -e target
+git reset -q; git checkout -q -- . ; git clean -qfd -e target
 git apply "$OUT/demo.diff" || { echo "demo.diff does not apply"; exit 2; }
 echo "== demo WITHOUT patch (expect pass)"
 cargo test -p akd -p akd_core --offline "$FILT" 2>&1 | grep -E "^test result|^test .*(FAILED|ok)$|error\[" | grep -v " 0 passed; 0 failed" | tail -8
@@ -14,4 +14,4 @@ cargo test -p akd -p akd_core --offline "$FILT" 2>&1 | grep -E "^test result|^te
 git apply -R "$OUT/demo.diff"
 echo "== existing tests WITH patch only (expect all pass)"
 cargo test -p akd -p akd_core --offline 2>&1 | grep -E "^test result|FAILED|error\[" | tail -8
-git checkout -q -- . ; git clean -qfd -e target
+git reset -q; git checkout -q -- . ; git clean -qfd -e target
